@@ -249,6 +249,12 @@ impl StateCheck for C07 {
 }
 
 fn menu() -> Vec<Letter> {
+    menu_v(false)
+}
+
+/// `near`: the lines of the forced families carry values within 5e-4 of (1, 0, 0) and the RED1 / RED2 lines values within 5e-4
+/// of the user's, so that "close enough, not updated" shows (factors are copied, never computed: the oracle compares at 1e-6)
+fn menu_v(near: bool) -> Vec<Letter> {
     let lines: [(&str, &str, &str, &str); 27] = [
         ("ELECTRICIDAD", "INSITU", "SUMINISTRO", "A"),
         ("ELECTRICIDAD", "INSITU", "A_RED", "A"),
@@ -283,6 +289,14 @@ fn menu() -> Vec<Letter> {
         .enumerate()
         .map(|(j, (c, s, d, st))| {
             let j = j as u32 + 1;
+            let k = key(c, s, d, st);
+            if near && forced(&k) {
+                return Letter::one(Line::Raw(format!("{c}, {s}, {d}, {st}, 0.9995, 0.0005, 0.0004")));
+            }
+            if near && (*c == "RED1" || *c == "RED2") && *s == "RED" && *d == "SUMINISTRO" && *st == "A" {
+                let u = if *c == "RED1" { USER1 } else { USER2 };
+                return Letter::one(Line::Raw(format!("{c}, {s}, {d}, {st}, {}, {}, {}", u.0 + 0.0004, u.1 + 0.0003, u.2 + 0.0005)));
+            }
             Letter::one(Line::Raw(format!("{c}, {s}, {d}, {st}, {}, {}, {}", (j * 3 + 1) as f32 / 8.0, (j * 5 + 2) as f32 / 16.0, (j * 7 + 3) as f32 / 32.0)))
         })
         .collect()
@@ -360,6 +374,7 @@ pub fn run(ctx: &Ctx) -> i32 {
     let bases = vec![("empty".to_string(), String::new()), ("EL grid".to_string(), "ELECTRICIDAD, RED, SUMINISTRO, A, 0.5, 2.0, 0.42\n".to_string())];
     let depth = if ctx.quick() { 5 } else { 7 };
     explore(ctx, &format!("FACT: subsets of a 27-line menu, <= {depth} lines, from {{empty, EL grid}}"), Wide { alphabet: menu(), bases, max_add: depth, repeat: false }, C07, shared.clone());
+    explore(ctx, "FACT near: the same menu with file values within 5e-4 of the forced / user values, <= 3 lines", Wide { alphabet: menu_v(true), bases: vec![("empty".to_string(), String::new()), ("EL grid".to_string(), "ELECTRICIDAD, RED, SUMINISTRO, A, 0.5, 2.0, 0.42\n".to_string())], max_add: if ctx.quick() { 3 } else { 4 }, repeat: false }, C07, shared.clone());
     let locs: Vec<(String, String)> = subj::LOCS.iter().map(|l| (format!("loc:{l}"), format!("#LOC {l}\n"))).collect();
     explore(ctx, "four regulatory locations", Wide { alphabet: vec![], bases: locs, max_add: 0, repeat: false }, C07, shared.clone());
     let shipped: Vec<(String, String)> = subj::shipped_factor_files();
